@@ -2,7 +2,7 @@
    Statements only; proofs in Sema/WellFormed.v.  The model (Sema/Validate.v) mirrors the parse-time checks, the
    redefinition pass and the validators as written; numeric bounds come from Gen/NumericBounds.v (regenerated). *)
 From Coq Require Import List Bool Arith ZArith.
-From SliceV Require Import Gen.NumericBounds Sema.Validate Sema.WellFormed.
+From SliceV Require Import Gen.NumericBounds Sema.Validate Sema.WellFormed Sema.AttrTypes Gen.AttributeRules Sema.Attributes Sema.AttributesProofs.
 Import ListNotations.
 
 (* a program is accepted (no error diagnostic) exactly when it satisfies every rule of the catalogue *)
@@ -42,6 +42,27 @@ Proof.
     + split; [intros H; discriminate H|]. intros (_ & H & _). discriminate H.
   - split; [intros H; discriminate H|]. intros (H & _). discriminate H.
 Qed.
+
+(* attributes only where legal, well-formed and not repeated (model: Sema/Attributes.v).  The table of built-in attributes that
+   tools/regen_attrs.py extracts from grammar/attributes/*.rs on every run -- directive, repeatability, argument count range,
+   accepted arguments, legal places -- is the one the model fixes *)
+Theorem C04_attribute_table_as_in_the_sources : attribute_rules = the_rules.
+Proof. exact regenerated_table_is_expected. Qed.
+(* no attribute diagnostic is reported exactly when every attribute is a built-in one used with an accepted number of accepted
+   arguments or carries a scope prefix, stands where it is legal (oneway only on operations that return nothing), and no
+   non-repeatable attribute occurs twice on one element *)
+Theorem C04_attributes_accepted_iff : forall es, check_attributes es = [] <->
+  Forall (fun e => Forall wellformed (el_attrs e) /\ not_repeated (el_attrs e) /\ Forall (legal e) (el_attrs e)) es.
+Proof. exact attributes_accepted_iff. Qed.
+Theorem C04_unknown_attribute_iff : forall es, In E024 (check_attributes es) <->
+  exists e a, In e es /\ In a (el_attrs e) /\ rule_of a = None /\ unscoped (ad_dir a) = true.
+Proof. exact unknown_iff. Qed.
+Theorem C04_attribute_placement : forall e a, place_codes e a = [] <-> legal e a.
+Proof. exact place_codes_nil. Qed.
+Theorem C04_attribute_arguments : forall a, parse_codes a = [] <-> wellformed a.
+Proof. exact parse_codes_nil. Qed.
+Theorem C04_attribute_repeats : forall l, repeat_codes [] l = [] <-> not_repeated l.
+Proof. exact repeat_codes_nil0. Qed.
 
 (* non-vacuity: compact struct with a tagged optional field and a duplicate tag *)
 Example C04_instance :
